@@ -42,11 +42,16 @@ Kinds == GenericKinds \cup {"LinReg"}
 Missing(kind, forms)   == {i \in DOMAIN Schema(kind) : ~Schema(kind)[i].opt /\ forms[i] = "absent"}
 BadType(kind, forms)   == {i \in DOMAIN Schema(kind) : forms[i] # "absent" /\ forms[i] \notin Schema(kind)[i].types}
 
+\* a TOML integer where the schema lists floats only (eff = 1): the constructor takes the integer (Converter(eff=1) is a
+\* legal call), so "the file equals the constructor call" and "a wrong type is rejected" both apply - either answer is right
+IntForFloat(kind, forms) == {i \in BadType(kind, forms) : forms[i] = "int" /\ "float" \in Schema(kind)[i].types}
+
 \* what the loader must do
 Class(kind, forms) ==
   IF Missing(kind, forms) # {} /\ BadType(kind, forms) # {} THEN "Either"     \* both faults: either exception
   ELSE IF Missing(kind, forms) # {} THEN "KeyError"
-  ELSE IF BadType(kind, forms) # {} THEN "ValueError"
+  ELSE IF BadType(kind, forms) # {} THEN
+       (IF BadType(kind, forms) \subseteq IntForFloat(kind, forms) THEN "CtorOrValueError" ELSE "ValueError")
   ELSE "Ctor"                                                                  \* same as Kind(name, **P, limits=L)
 
 =============================================================================
